@@ -237,3 +237,22 @@ func verifRoundTripBatchRelease(src *BatchRelease, hub *v1beta1.BatchRelease, ba
 //@ ensures workload_ref: back.Spec.TargetRef.WorkloadRef != nil && back.Spec.TargetRef.WorkloadRef.APIVersion == src.Spec.TargetRef.WorkloadRef.APIVersion && back.Spec.TargetRef.WorkloadRef.Kind == src.Spec.TargetRef.WorkloadRef.Kind && back.Spec.TargetRef.WorkloadRef.Name == src.Spec.TargetRef.WorkloadRef.Name
 //@ ensures style: back.Spec.ReleasePlan.RollingStyle == old(effStyle(src))
 //@ ensures status: sameBRStatus(back, src)
+
+// ---------- read-modify-write of a stored canary Rollout through v1alpha1: hub -> v1alpha1 -> hub (harness) ----------
+func verifReadModifyWriteRollout(stored *v1beta1.Rollout, view *Rollout, written *v1beta1.Rollout) {
+	if err := view.ConvertFrom(stored); err != nil {
+		return
+	}
+	_ = view.ConvertTo(written)
+}
+
+//@ func verifReadModifyWriteRollout
+//@ props C20
+//@ requires stored != nil && view != nil && written != nil && backing(stored) != backing(written)
+//@ requires canary_strategy: stored.Spec.Strategy.Canary != nil && stored.Spec.Strategy.BlueGreen == nil
+//@ ensures workload_ref: written.Spec.WorkloadRef.APIVersion == old(stored.Spec.WorkloadRef.APIVersion) && written.Spec.WorkloadRef.Kind == old(stored.Spec.WorkloadRef.Kind) && written.Spec.WorkloadRef.Name == old(stored.Spec.WorkloadRef.Name)
+//@ ensures flags: written.Spec.Strategy.Canary != nil && written.Spec.Strategy.BlueGreen == nil && written.Spec.Strategy.Paused == old(stored.Spec.Strategy.Paused) && written.Spec.Disabled == old(stored.Spec.Disabled) && written.Spec.Strategy.Canary.DisableGenerateCanaryService == old(stored.Spec.Strategy.Canary.DisableGenerateCanaryService) && written.Spec.Strategy.Canary.FailureThreshold == old(stored.Spec.Strategy.Canary.FailureThreshold)
+//@ ensures style: written.Spec.Strategy.Canary.EnableExtraWorkloadForCanary == old(stored.Spec.Strategy.Canary.EnableExtraWorkloadForCanary)
+//@ ensures routing_ref: old(stored.Spec.Strategy.Canary.TrafficRoutingRef) != "" ==> written.Spec.Strategy.Canary.TrafficRoutingRef == old(stored.Spec.Strategy.Canary.TrafficRoutingRef)
+//@ ensures shape: len(written.Spec.Strategy.Canary.Steps) == old(len(stored.Spec.Strategy.Canary.Steps)) && len(written.Spec.Strategy.Canary.TrafficRoutings) == old(len(stored.Spec.Strategy.Canary.TrafficRoutings)) && (written.Spec.Strategy.Canary.PatchPodTemplateMetadata == nil) == (old(stored.Spec.Strategy.Canary.PatchPodTemplateMetadata) == nil)
+//@ ensures status_cursor: (written.Status.CanaryStatus == nil) == (old(stored.Status.CanaryStatus) == nil)
